@@ -131,50 +131,10 @@ Proof.
     pose proof (proj1 (inv_owner_fresh s1 I1 _ _ _ (inv_log_owner s1 I1 e He))). unfold res1. lia. }
   pose proof (decay_run cfg h2 (fst res1)) as D.
   assert (Hlog : exists j, nth_error (log (run cfg (fst res1) h2)) j = Some e /\ j = i).
-  { exists i. split; [|reflexivity]. clear -Hn.
-    assert (P : forall s, nth_error (log s) i = Some e -> forall o, nth_error (log (fst (step cfg s o))) i = Some e).
-    { intros s Hs o. assert (L : exists l, log (fst (step cfg s o)) = (log s ++ l)%list).
-      { destruct o; cbn [step]; try (exists []; rewrite app_nil_r; reflexivity);
-          try (new_flows_tac s fresh_grant_log ltac:(exists []; rewrite app_nil_r; reflexivity); exact FGfact).
-        - unfold authorize.
-          destruct (clients s (az_client a)) as [cl|]; [|exists []; rewrite app_nil_r; reflexivity].
-          destruct (negb (scopes_ok cfg cl (az_scopes a))); [exists []; rewrite app_nil_r; reflexivity|].
-          destruct (negb (aud_ok cfg (cl_aud cl) (az_aud a))); [exists []; rewrite app_nil_r; reflexivity|].
-          cbn [fresh_rid mint].
-          destruct (pkce_validate cfg (az_challenge a) (az_method a) cl); cbn [fst fail]; [exists []; rewrite app_nil_r; reflexivity|].
-          destruct (String.eqb (az_challenge a) "" && String.eqb (az_method a) ""); cbn; eauto.
-        - unfold redeem.
-          destruct auth0 as [c|]; [|exists []; rewrite app_nil_r; reflexivity].
-          destruct (clients s c) as [cl|]; [|exists []; rewrite app_nil_r; reflexivity].
-          destruct (negb (args_has (cl_grants cl) ["authorization_code"])); [exists []; rewrite app_nil_r; reflexivity|].
-          destruct (key_of s code) as [k0|]; [|exists []; rewrite app_nil_r; reflexivity].
-          destruct (codes (st s) k0) as [[[|] r0]|] eqn:Ec; [| exists []; rewrite app_nil_r; reflexivity |exists []; rewrite app_nil_r; reflexivity].
-          destruct (p_tampered code); [exists []; rewrite app_nil_r; reflexivity|].
-          destruct (negb (Nat.eqb (r_client r0) c)); [exists []; rewrite app_nil_r; reflexivity|].
-          destruct (negb (String.eqb (r_redirect r0) "") && negb (String.eqb (r_redirect r0) redirect)); [exists []; rewrite app_nil_r; reflexivity|].
-          assert (H1 : log (fst (pkce_token cfg s cl (Some k0) verifier verifier_s256)) = log s)
-            by (destruct (pkce_token_state cfg s cl (Some k0) verifier verifier_s256) as [->|[k1 ->]]; reflexivity).
-          destruct (pkce_token cfg s cl (Some k0) verifier verifier_s256) as [s1' [e0|]]; cbn [fst] in *; [exists []; rewrite app_nil_r; assumption|].
-          destruct (expired _ _ _ _); [exists []; rewrite app_nil_r; assumption|].
-          unfold grant_tokens, mint. destruct (can_refresh _ _ _); cbn; rewrite H1; eauto.
-        - unfold refresh_flow.
-          destruct auth0 as [c|]; [|exists []; rewrite app_nil_r; reflexivity].
-          destruct (clients s c) as [cl|]; [|exists []; rewrite app_nil_r; reflexivity].
-          destruct (negb (args_has (cl_grants cl) ["refresh_token"])); [exists []; rewrite app_nil_r; reflexivity|].
-          destruct (key_of s tok0) as [k0|]; cbn [find]; [|exists []; rewrite app_nil_r; reflexivity].
-          destruct (refresh (st s) k0) as [[[|] r0]|] eqn:Er; [| exists []; rewrite app_nil_r; reflexivity |exists []; rewrite app_nil_r; reflexivity].
-          repeat match goal with |- context [if ?c then _ else _] => destruct c; [exists []; rewrite app_nil_r; reflexivity|] end.
-          destruct (rotate_refresh (st s) (r_id r0)) as [st1 [e0|]]; [exists []; rewrite app_nil_r; reflexivity|].
-          unfold grant_tokens, mint. cbn. eauto.
-        - unfold revoke.
-          destruct auth0 as [c|]; [|exists []; rewrite app_nil_r; reflexivity].
-          destruct (clients s c); [|exists []; rewrite app_nil_r; reflexivity].
-          destruct (revoke_lookup s (key_of s tok0) h) as [r0|]; [|exists []; rewrite app_nil_r; reflexivity].
-          destruct (negb (Nat.eqb (r_client r0) c)); exists []; rewrite app_nil_r; reflexivity. }
-      destruct L as [l ->]. rewrite nth_error_app1; [assumption|]. apply nth_error_Some. congruence. }
-    assert (Q : forall h s, nth_error (log s) i = Some e -> nth_error (log (run cfg s h)) i = Some e).
-    { unfold run. induction h as [|o h IH]; intros s Hs; cbn [fold_left]; [assumption|]. apply IH. now apply P. }
-    apply Q. unfold res1. rewrite (refresh_is_step _ _ _ _ []). now apply P. }
+  { exists i. split; [|reflexivity]. apply log_run_nth.
+    unfold res1. rewrite (refresh_is_step _ _ _ _ []).
+    destruct (log_step_prefix cfg s1 (ORefresh auth tok [])) as [l ->].
+    rewrite nth_error_app1; [assumption|]. apply nth_error_Some. congruence. }
   destruct Hlog as [j [Hj ->]].
   eapply key_dead_inactive; [exact Hj| |].
   - eapply decay_access_gone; eauto.
